@@ -114,6 +114,10 @@ class HostileFault(InjectedFault):
         raise RuntimeError('this exception cannot be formatted')
 
 
+class InjectedAssertion(InjectedFault, AssertionError):
+    """The injected failure is a failed `assert` (code that treats AssertionError specially must not break anything)."""
+
+
 NOVALUE = '<resume-without-value>'
 _RESUME_POOL = ('rv', 0, '<array-like>', '', None, NOVALUE, False, [], {}, 'rv')
 
@@ -181,6 +185,7 @@ class World:
         self.site_hook = None  # callable(proc, site, count): the environment acting from inside user code (e.g. a pause)
         self.hostile = False  # raise HostileFault instead of InjectedFault
         self.bare_faults = False  # raise the fault without arguments
+        self.assertion_faults = False  # the fault is an AssertionError
         self.fault = None  # (site, occurrence) -> raise InjectedFault there
         self.fault_counts = {}
         self.fault_fired = None  # the InjectedFault instance once raised
@@ -216,7 +221,7 @@ class World:
             self.site_hook(proc, site, count)
         fault = self.fault
         if fault is not None and fault[0] == site and fault[1] == count and self.fault_fired is None:
-            cls = HostileFault if self.hostile else InjectedFault
+            cls = HostileFault if self.hostile else (InjectedAssertion if self.assertion_faults else InjectedFault)
             exc = cls() if self.bare_faults else cls(f'{site}#{count}')  # `raise SomeError` without any argument is common
             self.fault_fired = exc
             self.rec('fault', site, count)
@@ -585,6 +590,13 @@ def build_process_class(program, world, plumpy, hooks=True, record_calls=True):
         super(cls_ref[0], self).__init__(*args, **kwargs)
         self._trace = []
         world.site(self, 'init')
+        if program.get('init_callback'):
+            # the constructor schedules a callback: it runs before the first step, while the process is still CREATED
+            def callback(proc=self):
+                world.rec('callback', label(proc), 'init', current_is(proc, plumpy), proc.state.value)
+                world.site(proc, 'callback:init')
+
+            self.call_soon(callback)
 
     namespace['__init__'] = __init__
 
